@@ -196,6 +196,21 @@ theorem contentM_inv {sh : Shape} {dim : Nat} {st st' : St} {line : Nat} {s : St
     | partition _ _ _ _ _ _ => simp [contentM, gErr] at h
     | chart _ _ => simp [contentM, gErr] at h
     | chartItem => simp [contentM, gErr] at h
+    | bezier _ _ _ _ _ => simp [contentM, gErr] at h
+    | bezierPoints size read acc =>
+      simp only [contentM] at h
+      repeat' split at h
+      all_goals first
+        | (simp [cErr] at h; done)
+        | (simp only [Except.ok.injEq] at h; subst h
+           exact ⟨rfl, rfl, h3, stackInv_replace h4 trivial (fun _ _ _ _ _ _ => trivial)⟩)
+    | bezierParams size read acc =>
+      simp only [contentM] at h
+      repeat' split at h
+      all_goals first
+        | (simp [cErr] at h; done)
+        | (simp only [Except.ok.injEq] at h; subst h
+           exact ⟨rfl, rfl, h3, stackInv_replace h4 trivial (fun _ _ _ _ _ _ => trivial)⟩)
     | verts count acc =>
       obtain ⟨v, hv, hc, rfl⟩ := contentM_verts rfl h
       refine ⟨rfl, rfl, h3, stackInv_replace h4 trivial ?_⟩
@@ -303,6 +318,42 @@ theorem closeTop_inv {sh : Shape} {dim : Nat} {st st' : St} {line : Nat}
       cases c with
       | none => simp [closeTop, gErr] at h
       | some ch => simp [closeTop] at h; subst h; exact ⟨rfl, rfl, h3, stackInv_tail h4⟩
+    | bezier sz cl o segs params =>
+      cases rest with
+      | nil => simp [closeTop, gErr] at h
+      | cons g tl =>
+        cases g with
+        | chart name c =>
+          simp only [closeTop, Except.ok.injEq] at h
+          subst h
+          exact ⟨rfl, rfl, h3, stackInv_replace (stackInv_tail h4) trivial (fun _ _ _ _ _ _ => trivial)⟩
+        | _ => simp [closeTop, gErr] at h
+    | bezierPoints size read acc =>
+      cases rest with
+      | nil => simp [closeTop, gErr] at h
+      | cons g tl =>
+        cases g with
+        | bezier sz cl o segs params =>
+          simp only [closeTop] at h
+          split at h
+          · simp [gErr] at h
+          · simp only [Except.ok.injEq] at h
+            subst h
+            exact ⟨rfl, rfl, h3, stackInv_replace (stackInv_tail h4) trivial (fun _ _ _ _ _ _ => trivial)⟩
+        | _ => simp [closeTop, gErr] at h
+    | bezierParams size read acc =>
+      cases rest with
+      | nil => simp [closeTop, gErr] at h
+      | cons g tl =>
+        cases g with
+        | bezier sz cl o segs params =>
+          simp only [closeTop] at h
+          split at h
+          · simp [gErr] at h
+          · simp only [Except.ok.injEq] at h
+            subst h
+            exact ⟨rfl, rfl, h3, stackInv_replace (stackInv_tail h4) trivial (fun _ _ _ _ _ _ => trivial)⟩
+        | _ => simp [closeTop, gErr] at h
     | mesh sizes v topo =>
       simp only [closeTop] at h
       split at h
@@ -559,6 +610,16 @@ theorem openM_inv {sh : Shape} {dim : Nat} {st st' : St} {line : Nat} {m : Marku
             stackInv_push (stackInv_push hrest (by trivial) (fun _ _ _ _ _ => by trivial))
               (by trivial) (fun _ _ _ _ hh => by cases hh)⟩)
     | chartItem => simp [openM, gErr] at h
+    | bezierPoints _ _ _ => simp [openM, gErr] at h
+    | bezierParams _ _ _ => simp [openM, gErr] at h
+    | bezier sz cl o segs params =>
+      simp only [openM] at h
+      repeat' split at h
+      all_goals first
+        | (simp [gErr] at h; done)
+        | exact closeTop_inv ⟨rfl, rfl, h3, stackInv_push h4 (by trivial) (fun _ _ _ _ hh => by cases hh)⟩ h
+        | (simp only [Except.ok.injEq] at h; subst h
+           exact ⟨rfl, rfl, h3, stackInv_push h4 (by trivial) (fun _ _ _ _ hh => by cases hh)⟩)
     | verts _ _ => simp [openM, gErr] at h
     | topo _ _ _ _ _ => simp [openM, gErr] at h
     | mapping _ _ _ => simp [openM, gErr] at h
